@@ -27,7 +27,7 @@ ASSUMPTIONS = ['input domain: every process owns at least one point in every dis
 def gen(rng, tier, idx):
     if idx == 0:
         return dict(kind='sweep', P=1, nmax=40, sched=simworld.default_sched(0))
-    c = c01.gen(rng, tier, idx)
+    c = c01.gen_base(rng, tier, idx)
     c['kind'] = 'world'
     # a walk through all layouts for the Grid accessor part
     names = [n for n, _ in c['layouts']]
@@ -300,3 +300,13 @@ def shrink(case):
             c = dict(case)
             c['walk'] = case['walk'][:i] + case['walk'][i + 1:]
             yield c
+
+
+_gen_plain = gen
+
+
+def gen(rng, tier, idx):
+    case = _gen_plain(rng, tier, idx)
+    if case.get('sched') is not None and 'P' in case:
+        cm.maybe_bystanders(rng, case['sched'], case['P'])
+    return case
